@@ -166,10 +166,10 @@ def judge(case, part):
                 part.fail(tag % ("cli:exit-%s-but-expected-%d" % (code, 1 if rejects else 0)), dict(case, options=options), 1 if rejects else 0, code)
 
 
-def enumerate_cases(preset, header):
+def enumerate_cases(preset, header, max_rows=6):
     cases = []
     kinds = ["cell", "cell2"] if preset == "fixed" else ["cell", "cell2", "short", "long"]
-    for rows in range(0, 7):
+    for rows in range(0, max_rows + 1):
         total = header + rows
         for limit in [None] + list(range(0, total + 2)):
             cases.append({"preset": preset, "header": header, "rows": rows, "limit": limit, "bad_at": None, "bad_kind": None})
@@ -184,9 +184,9 @@ def enumerate_cases(preset, header):
 
 
 def work(item):
-    preset, header, chunk, of = item
+    preset, header, chunk, of = item[:4]
     part = Part()
-    cases = enumerate_cases(preset, header)
+    cases = enumerate_cases(preset, header, *item[4:])
     for case in cases[chunk::of]:
         judge(case, part)
     part.sample(cases[len(cases) // 2], limit=1)
@@ -195,9 +195,11 @@ def work(item):
 
 
 def run(ctx):
-    items = [(preset, header, chunk, 4) for preset in ("delimited", "fixed") for header in range(0, 4) for chunk in range(4)]
-    total = sum(len(enumerate_cases(p, h)) for p in ("delimited", "fixed") for h in range(4))
-    ctx.bound = {"cases": total, "header": "0..3", "data rows": "0..6", "limit": "none, 0..rows+header+1", "header rows": "plain; delimited also with quoted line breaks and quotes inside header cells", "bad row": "none or one at every position 1..rows+header (also inside the header); kinds: bad cell (2 kinds), one item short, one item long (delimited)",
+    thorough = ctx.tier == "thorough"
+    max_rows, max_header, parts = (10, 5, 16) if thorough else (6, 3, 4)
+    items = [(preset, header, chunk, parts, max_rows) for preset in ("delimited", "fixed") for header in range(0, max_header + 1) for chunk in range(parts)]
+    total = sum(len(enumerate_cases(p, h, max_rows)) for p in ("delimited", "fixed") for h in range(max_header + 1))
+    ctx.bound = {"cases": total, "header": "0..%d" % max_header, "data rows": "0..%d" % max_rows, "limit": "none, 0..rows+header+1", "header rows": "plain; delimited also with quoted line breaks and quotes inside header cells", "bad row": "none or one at every position 1..rows+header (also inside the header); kinds: bad cell (2 kinds), one item short, one item long (delimited)",
                  "apis": ["cutplace.rows x 3 modes", "cutplace.validate", "applications.main --until (and --until -1 / absent for no limit)"]}
     ctx.rule = "full product, no sampling; non-trivial = case with a bad row; oracle: rejection reported iff position > header and (no limit or position <= limit); states = (format, header) configurations"
     ctx.assumptions = ["in fixed format a bad row is a bad cell only (a record of the wrong width is a container fault, C06/C13)"]
